@@ -129,7 +129,13 @@ def sym_range(*a):
     if any(isinstance(v, SymInt) for v in a):
         vals = [concrete(v) if isinstance(v, SymInt) else v for v in a]
         if any(isinstance(v, SymInt) for v in vals):
-            raise EngineLimit("range() over a symbolic bound (needs a loop cut-point)")
+            from .cutpoint import SymRange
+
+            if len(vals) == 1:
+                return SymRange(0, vals[0], 1)
+            if len(vals) == 2:
+                return SymRange(vals[0], vals[1], 1)
+            return SymRange(vals[0], vals[1], vals[2])
         return builtins.range(*vals)
     return builtins.range(*a)
 
